@@ -58,7 +58,7 @@ fn umv_component_bits(rng: &mut Rng, style: u8) -> Vec<(u32, u8)> {
 fn adversarial(rng: &mut Rng, g: &mut DecGen, note: &mut String) -> PicSpec {
     let ptype = if g.has_ref && rng.chance(2, 3) { PType::P } else { PType::I };
     let mut s = gen_picture(rng, &g.cfg, g.fl.clone(), ptype, g.w, g.h, g.tr);
-    let kind = rng.below(13);
+    let kind = rng.below(14);
     match kind {
         0 => {
             *note = "adversarial: more macroblocks than the picture holds".into();
@@ -88,7 +88,7 @@ fn adversarial(rng: &mut Rng, g: &mut DecGen, note: &mut String) -> PicSpec {
                     }
                 }
             } else {
-                s.flavour = Flavour::StdPlus { umv_unlimited: false, layers: None };
+                s.flavour = Flavour::StdPlus { umv_unlimited: false, layers: None, hdr: None };
                 s.height = 0;
                 s.width = s.width.max(4) / 4 * 4;
             }
@@ -145,7 +145,7 @@ fn adversarial(rng: &mut Rng, g: &mut DecGen, note: &mut String) -> PicSpec {
                 s.width = w;
                 s.height = h;
             } else {
-                s.flavour = Flavour::StdPlus { umv_unlimited: false, layers: None };
+                s.flavour = Flavour::StdPlus { umv_unlimited: false, layers: None, hdr: None };
                 s.width = 2048;
                 s.height = 1020;
             }
@@ -173,11 +173,11 @@ fn adversarial(rng: &mut Rng, g: &mut DecGen, note: &mut String) -> PicSpec {
                 // the ramp itself as the next picture of this decoder
                 let w = *rng.pick(&[160u16, 320, 64, 16]);
                 let h = *rng.pick(&[16u16, 32, 48]);
-                g.fl = Flavour::StdPlus { umv_unlimited: false, layers: None };
+                g.fl = Flavour::StdPlus { umv_unlimited: false, layers: None, hdr: None };
                 g.w = w;
                 g.h = h;
                 g.cfg.flavour = 4;
-                let mut ramp = gen_picture(rng, &g.cfg, Flavour::StdPlus { umv_unlimited: true, layers: None }, PType::P, w, h, g.tr.wrapping_add(1));
+                let mut ramp = gen_picture(rng, &g.cfg, Flavour::StdPlus { umv_unlimited: true, layers: None, hdr: None }, PType::P, w, h, g.tr.wrapping_add(1));
                 ramp.mbs.clear();
                 let n = ramp.mb_count();
                 let style = rng.below(3) as u8;
@@ -222,6 +222,52 @@ fn adversarial(rng: &mut Rng, g: &mut DecGen, note: &mut String) -> PicSpec {
             s.extra_bits.push((rng.below(32) as u32, 5));
             for _ in 0..rng.usize(6) {
                 s.extra_bits.push((rng.next_u64() as u32, 32));
+            }
+        }
+        12 => {
+            *note = "adversarial: PLUSPTYPE header variety (fixed formats, UMV ranges, custom clock, aspect ratio, mode bits)".into();
+            if !s.is_sorenson() {
+                let fmt = *rng.pick(&[1u8, 2, 3, 4, 5, 5, 6, 6, 0, 7]);
+                let umv = *rng.pick(&[0u8, 1, 1, 2]);
+                let hdr = PlusHdr {
+                    fmt,
+                    umv,
+                    pcf: if rng.chance(1, 4) { Some((rng.byte(), rng.below(4) as u8)) } else { None },
+                    par: *rng.pick(&[1u8, 1, 2, 5, 15, 0, 9]),
+                    epar: (*rng.pick(&[0u8, 1, 255]), *rng.pick(&[0u8, 1, 255])),
+                    modes: if rng.chance(1, 2) { 0 } else { (rng.next_u64() & 0x1FF) as u16 & *rng.pick(&[0x1FFu16, 0x010, 0x0C0, 0x101]) },
+                    sss: rng.below(4) as u8,
+                    type_code: if rng.chance(1, 5) { Some(rng.below(8) as u8) } else { None },
+                    mpp_bits: if rng.chance(1, 4) { rng.below(8) as u8 } else { 0 },
+                    cpm: if rng.chance(1, 6) { Some(rng.below(4) as u8) } else { None },
+                };
+                if (1..=5).contains(&fmt) {
+                    let (fw, fh) = STD_FIXED[fmt as usize - 1];
+                    s.width = fw;
+                    s.height = fh;
+                } else {
+                    s.width = (s.width.max(4) + 3) / 4 * 4;
+                    s.height = (s.height.max(4) + 3) / 4 * 4;
+                }
+                s.flavour = Flavour::StdPlus { umv_unlimited: umv == 2, layers: if g.cfg.scal { Some((rng.below(16) as u8, rng.below(16) as u8)) } else { None }, hdr: Some(hdr) };
+                s.ptype = if rng.chance(2, 3) { PType::P } else { PType::I };
+                let n = s.mb_count().min(1 + rng.usize(12));
+                let mut q = s.quant;
+                s.mbs = (0..n).map(|_| gen_mb(rng, &g.cfg, s.ptype, false, &mut q)).collect();
+                if umv != 0 && s.ptype == PType::P && rng.bool() {
+                    // macroblocks whose vectors are written in the UMV code this header selects
+                    s.mbs.clear();
+                    let style = rng.below(3) as u8;
+                    for _ in 0..n {
+                        s.extra_bits.push((0, 1));
+                        s.extra_bits.push((1, 1));
+                        s.extra_bits.push((0b11, 2));
+                        s.extra_bits.extend(umv_component_bits(rng, style));
+                        s.extra_bits.extend(umv_component_bits(rng, style));
+                    }
+                }
+            } else {
+                s.tail_stuffing = 1 + rng.below(3) as u8;
             }
         }
         _ => {
@@ -368,6 +414,12 @@ pub fn gen_session(rng: &mut Rng, mix: &Mix) -> Session {
             }
             2 => {
                 let spec = adversarial(rng, g, &mut note);
+                if note.starts_with("adversarial: PLUSPTYPE header variety") && rng.bool() {
+                    // a fresh decoder: later headers are otherwise compared with the last
+                    // picture's format and answered with "unimplemented"
+                    s.events.push(Ev::New { d, opts: g.opts });
+                    g.has_ref = false;
+                }
                 PlanPic::from_spec(spec, Vec::new(), &note).0
             }
             3 => PlanPic::raw(header_then_random(rng, g), "valid header, random body"),
